@@ -290,9 +290,9 @@ theorem helper_declares_swift (U : UnicodeOps) (c : Swift.Cfg) (e : RustEnum) (s
     d.generics.map (·.name) = e.genericTypes :=
   tie_swift_enum_generics U c e st st' ss d h
 
-theorem helper_applied_swift (c : Swift.Cfg) (e : RustEnum) (id : Id) (cs : List Str) (fs : List RustField)
+theorem helper_applied_swift {U : UnicodeOps} (c : Swift.Cfg) (e : RustEnum) (id : Id) (cs : List Str) (fs : List RustField)
     (st st' : Swift.St) (k : Swift.EnumCase)
-    (h : Swift.algebraicCase c e (.anonymousStruct id cs fs) st = .ok (k, st')) :
+    (h : Swift.algebraicCase U c e (.anonymousStruct id cs fs) st = .ok (k, st')) :
     k.payload = some ⟨c.pfx ++ Swift.anonymousStructName e id.original ++
       genericSuffix (anonymousStruct e (Swift.anonymousStructName e id.original) id.original fs).genericTypes, false⟩ :=
   tie_swift_case_generics c e id cs fs st st' k h
@@ -460,7 +460,7 @@ theorem swift_example :
     ((Swift.enumFacts .ascii { pfx := s%"OP" } wGn3 false).bind fun (ss, d, _) =>
         .ok (ss.map (fun s => s.generics.map (·.name)), d.generics.map (·.name))) =
       .ok ([[fT, fU], [fW], [], [fU, fT], [fT]], [fT, fU, fW]) ∧
-    ((Swift.algebraicCase { pfx := s%"OP" } wGn3 (.anonymousStruct (mkId s%"Vd" none) [] wVd) false).bind fun (k, _) =>
+    ((Swift.algebraicCase .ascii { pfx := s%"OP" } wGn3 (.anonymousStruct (mkId s%"Vd" none) [] wVd) false).bind fun (k, _) =>
         .ok k.payload) = .ok (some ⟨s%"OPGnVdInner<U, T>", false⟩) := by
   decide +kernel
 
